@@ -210,6 +210,45 @@ def validate_random(v, recs, wd):
   return acc
 
 
+def exact_value_scenarios():
+  """The callable receives exactly the configured values: equal-but-different leaves (1 / True / 1.0,
+  0.0 / -0.0, an IntEnum member and its int) are not exchanged for one another, alone or in containers."""
+  import enum  # pylint: disable=g-import-not-at-top
+
+  class Level(enum.IntEnum):
+    ONE = 1
+
+  def rec(*args, **kwargs):
+    return (args, kwargs)
+
+  def exact(x):
+    if isinstance(x, (list, tuple)):
+      return [type(x).__name__] + [exact(y) for y in x]
+    if isinstance(x, dict):
+      return {k: exact(y) for k, y in x.items()}
+    return (type(x).__name__, repr(x))
+  out = []
+  cases = [((1, True), {}), ((True, 1), {}), ((1, 1.0, True), {'k': 1}), ((0.0, -0.0), {'z': -0.0}),
+           ((Level.ONE, 1), {'e': Level.ONE}), (([1, True, 1.0], (True, 1)), {'d': {'a': 1, 'b': True}}),
+           (('1', b'1', 1), {}), ((0, False, None, ''), {'n': None})]
+  for args, kwargs in cases:
+    cfg = fdl.Config(rec, *args, **kwargs)
+    inner = fdl.Config(rec, cfg, fdl.Config(rec, *args))
+    try:
+      got, got_inner = fdl.build(cfg), fdl.build(inner)
+    except Exception as e:  # pylint: disable=broad-except
+      out.append(({'clause': 'exact-values', 'observed': 'raise:' + type(e).__name__}, f'{args} {kwargs}: {e}'[:200]))
+      continue
+    exp = rec(*args, **kwargs)
+    if exact(got[0]) != exact(exp[0]) or exact(got[1]) != exact(exp[1]):
+      out.append(({'clause': 'exact-values', 'observed': 'different-leaf'},
+                  f'configured {exact(exp[0])} {exact(exp[1])}, the callable received {exact(got[0])} {exact(got[1])}'))
+    elif exact(got_inner[0][0][0]) != exact(exp[0]) or exact(got_inner[0][1][0]) != exact(exp[0]):
+      out.append(({'clause': 'exact-values', 'observed': 'different-leaf-nested'},
+                  f'nested: configured {exact(exp[0])}, received {exact(got_inner[0][0][0])} / {exact(got_inner[0][1][0])}'))
+  return out
+
+
 def main():
   v = common.Verdict(PROP, 'model_checking')
   quick = common.tier() == 'quick'
@@ -252,6 +291,8 @@ def main():
     if validate_random(vneg, [dict(bad, tid=1)], os.path.join(wd, 'negtrace')) != 0:
       raise common.MachineryError('Trace_C01 accepted a corrupted record')
     accepted = validate_random(v, recs, wd)
+    for f, msg in exact_value_scenarios():
+      v.mismatch(f, {'message': msg})
   v.coverage.update({
       'c2s_records': len(recs), 'c2s_accepted': accepted,
       'states': res.distinct, 'transitions': res.generated,
